@@ -8,7 +8,7 @@ HERE = os.path.dirname(os.path.abspath(__file__))
 if HERE not in sys.path:
     sys.path.insert(0, HERE)
 
-import drive, gen, vlib, model, pairs, arith, history, fresh, interrupt, render  # noqa: E402
+import drive, gen, vlib, model, pairs, arith, history, fresh, interrupt, render, blt  # noqa: E402
 
 BATCH = 1200     # traces per TLC start (JSON loading dominates; keeps the heap small)
 
@@ -707,6 +707,82 @@ def check_c19(tier):
     return R.finish()
 
 
+# ----------------------------------------------------------------------------------------
+#  C15 / C16: the ballot-file reader
+# ----------------------------------------------------------------------------------------
+def check_blt(prop, tier):
+    R = vlib.Result(prop, tier)
+    rng = random.Random(vlib.seed() * 1000003 + 1516)
+    known = known_ids()
+    fixed = sorted(e['id'] for e in vlib.load_known() if e.get('kind') == 'fixed' and e['id'] in ('F4', 'F5', 'F6', 'F7', 'F17'))
+    blt_model_stage(R, prop, tier, fixed)
+    recs, meta = [], {}
+    rid = 0
+    skipped = collections.Counter()
+    nwf = 150 if tier == 'quick' else 3000
+    nfz = 700 if tier == 'quick' else 20000
+    texts = []
+    for _ in range(nwf):
+        e = blt.abstract_election(rng, maxc=6 if rng.random() < 0.9 else 9)
+        texts.append((blt.render_wf(rng, e), blt.denote(e)))
+    if prop == 'C16' or tier == 'thorough':
+        texts += [(t, None) for t in blt.fuzz_texts(rng, nfz)]
+    else:
+        texts += [(t, None) for t in blt.fuzz_texts(rng, 150)]
+    for text, want in texts:
+        R.cov['evaluations'] += 1
+        try:
+            W = blt.words_of(text)
+        except blt.Big:
+            skipped['number beyond 10^8'] += 1
+            continue
+        real, ctor_ok, ctor_exc = blt.real_outcome(text)
+        rid += 1
+        recs.append(dict(id=rid, words=W, real=real, ctor_ok=ctor_ok, want=want if want is not None else dict(none=True), kf=''))
+        meta[rid] = (text, real, ctor_exc)
+    outcomes = collections.Counter(m[1]['out'] for m in meta.values())
+    binds = collections.Counter()
+    for lo in range(0, len(recs), 1500):
+        chunk = recs[lo:lo + 1500]
+        out, res = vlib.judge_blt(chunk, fixed, workers=16)
+        R.add_tlc(res)
+        R.cov['traces_validated_against_impl'] += len(chunk)
+        for i, names in out.items():
+            text, real, ctor_exc = meta[i]
+            for nm in names:
+                pfx, what = nm.split(':', 1)
+                if pfx == 'BIND':
+                    binds[what] += 1
+                    if len(R.cov.setdefault('spec_code_divergences', [])) < 10:
+                        R.cov['spec_code_divergences'].append(dict(what=what, text=text, real=real['out'], exc=real['exc']))
+                    continue
+                if pfx != prop:
+                    continue
+                if what.startswith('KNOWN_') or 'KNOWN_' in what:
+                    fid = next((f for f in ('F4', 'F5', 'F6', 'F7', 'F17') if f in known and f not in fixed), None)
+                    if fid:
+                        R.known_finding(fid, known[fid]['text'])
+                        continue
+                R.violation('%s: %s on text %r (outcome %s %s %s)' % (prop, what, text[:120], real['out'], real['exc'], ctor_exc),
+                            dict(text=text, outcome=real, constructor=ctor_exc, failed=names))
+    R.cov['distinct_nontrivial'] = len(set(m[0] for m in meta.values()))
+    R.cov['real_outcomes'] = dict(outcomes)
+    R.cov['spec_code_divergence_counts'] = dict(binds)
+    R.cov['skipped'] = dict(skipped)
+    for t, w in texts[:2] + texts[-2:]:
+        R.sample(dict(text=t, wellformed=w is not None))
+    R.cov['rule'] = ('well-formed renderings of random abstract elections (layout, nested /* */ and # comments, quoted names with comment markers and '
+                     'UTF-8, [nick]/[tie]/[withdrawn]/[undeclared]/-n, ballot ids, equal rankings) with the election they denote; truncations at every word, '
+                     'single-word deletions/substitutions/insertions over a %d-word alphabet, word soups and unicode strings; every text is read by the real '
+                     'ElectionProfile and by the TLA+ reader specification (spec/Blt.tla: Tokenize + Parse) and judged by TraceBlt.tla' % len(blt.ALPHABET))
+    R.assumptions += ['word splitting and the per-word features (regex digits, strip) are computed by the harness', 'numbers beyond 10^8 are skipped']
+    return R.finish()
+
+
+def blt_model_stage(R, prop, tier, fixed):
+    pass
+
+
 COUNT_PROPS = ('C01', 'C02', 'C04', 'C05', 'C06', 'C07', 'C08', 'C09', 'C18')
 
 
@@ -750,6 +826,8 @@ def main(argv):
             return check_c20(tier)
         if prop == 'C19':
             return check_c19(tier)
+        if prop in ('C15', 'C16'):
+            return check_blt(prop, tier)
         print('no check registered for', prop)
         return 2
     except vlib.Machinery as e:
